@@ -452,6 +452,8 @@ type result struct {
 	BubbleErr string   // recovered synctest deadlock panic
 	Scanned   bool     // own goroutine scan done inside the bubble at quiescence
 	Leaked    []leaked // goroutines of this bubble that are still alive after quiescence
+	Early     []leaked // Dialer goroutines alive once Dial has returned and every started attempt has returned (no time passed)
+	EarlyScan bool
 	finErr    []error
 	script    []*scriptErr
 }
@@ -586,6 +588,29 @@ func runScenario(t *testing.T, sc *scenario, scan bool) *result {
 			}()
 			// quiescence: let every scripted duration, delay and timeout elapse
 			synctest.Wait()
+			if scan && res.Returned {
+				// "leaves no goroutine behind once outstanding attempts have returned": at this very instant, when
+				// no attempt is in flight any more, nothing of Dial may still be around (waiting out a delay, say)
+				rec.mu.Lock()
+				inflight := 0
+				for _, e := range rec.ev {
+					switch e.Kind {
+					case "start":
+						inflight++
+					case "finish":
+						inflight--
+					}
+				}
+				rec.mu.Unlock()
+				if inflight == 0 {
+					res.EarlyScan = true
+					for _, l := range scanBubble(res.Bubble) {
+						if l.Dialer {
+							res.Early = append(res.Early, l)
+						}
+					}
+				}
+			}
 			time.Sleep(time.Hour)
 			synctest.Wait()
 			cancel()
@@ -987,6 +1012,9 @@ func check(sc *scenario, res *result) (fs []finding, incon []string, st stats) {
 	}
 
 	// S8 and the bubble's own verdict
+	for _, l := range res.Early {
+		add("leak:outlives-dial-and-its-attempts:"+l.State+"@"+l.Frame, "goroutine of Dial still alive although Dial has returned and no attempt is in flight: [%s] in %s", l.State, l.Frame)
+	}
 	nDialer := 0
 	for _, l := range res.Leaked {
 		if l.Dialer {
@@ -1113,7 +1141,7 @@ func TestCheck(t *testing.T) {
 			nSkipped.Add(1)
 			return
 		}
-		scan := r.Replaying() || i%1024 == 0
+		scan := r.Replaying() || i%64 == 0
 		res := runScenario(t, &sc, scan)
 		if res.BubbleErr != "" {
 			nBubbleFail.Add(1)
